@@ -229,22 +229,38 @@ theorem Chain.ring_of_closed {pool : List Fragment} {o₀ : Oriented} {mid : Lis
     simp only [List.map_cons]
     rw [closes_cons, ← h.rev_eq, ← h.fwd_eq, hc]; simp
 
-/-- soundness of the recursion: everything sent below a call is the molecule of a ring that extends the call's chain -/
+/-- soundness of the recursion: everything sent below a call is the molecule of a ring that extends the call's
+chain, and the extension never returns to the seed's forward overhang before it closes and attaches flipped
+fragments only at non-palindromic overhangs -/
 theorem sound_aux (pool : List Fragment) : ∀ (fuel : Nat) (seed : Fragment) (used : List Fragment) (o₀ : Oriented) (mid : List Oriented),
     Chain pool o₀ mid seed used → ∀ c ∈ emits (recurseLigate pool fuel seed used),
-      ∃ ext, Ring pool (o₀ :: mid ++ ext) ∧ c = molecule (o₀ :: mid ++ ext)
+      ∃ ext, Ring pool (o₀ :: mid ++ ext) ∧ c = molecule (o₀ :: mid ++ ext) ∧
+        (∀ o ∈ ext, o.junction ≠ o₀.junction) ∧ (∀ o ∈ ext, o.flipped = true → revComp o.junction ≠ o.junction)
   | 0, _, _, _, _, _, c, hc => by simp [recurseLigate, emits] at hc
   | fuel + 1, seed, used, o₀, mid, h, c, hc => by
     rw [emits_succ] at hc
     split at hc
     · rename_i hcl
       rw [List.mem_singleton] at hc
-      exact ⟨[], by simpa using h.ring_of_closed hcl, by rw [hc, h.mol]; simp⟩
-    · rw [List.mem_flatMap] at hc
+      exact ⟨[], by simpa using h.ring_of_closed hcl, by rw [hc, h.mol]; simp, by simp, by simp⟩
+    · rename_i hncl
+      rw [List.mem_flatMap] at hc
       obtain ⟨ch, hch, hc⟩ := hc
-      obtain ⟨o, hp, hu, hl, _, rfl⟩ := mem_children.1 hch
-      obtain ⟨ext, hr, he⟩ := sound_aux pool fuel _ _ o₀ (mid ++ [o]) (h.extend hp hu hl) c hc
-      exact ⟨o :: ext, by simpa using hr, by simpa using he⟩
+      obtain ⟨o, hp, hu, hl, hpal, rfl⟩ := mem_children.1 hch
+      obtain ⟨ext, hr, he, hj, hq⟩ := sound_aux pool fuel _ _ o₀ (mid ++ [o]) (h.extend hp hu hl) c hc
+      refine ⟨o :: ext, by simpa using hr, by simpa using he, ?_, ?_⟩
+      · intro x hx
+        rcases List.mem_cons.1 hx with rfl | hx
+        · intro e
+          apply hncl
+          rw [h.fwd_eq, hl]; exact e.symm
+        · exact hj x hx
+      · intro x hx hfl
+        rcases List.mem_cons.1 hx with rfl | hx
+        · have := hpal hfl
+          rw [hl] at this
+          exact fun e => this e.symm
+        · exact hq x hx hfl
 
 /-- completeness of the recursion along one path: a ring that extends the call's chain by `suf`, whose
 remaining junction overhangs differ from the seed's forward overhang and are non-palindromic where a
@@ -742,5 +758,145 @@ theorem depth_le (pool : List Fragment) : ∀ (fuel : Nat) (seed : Fragment) (us
     split
     · simp [depth]
     · exact depth_foldr_le _ _ fuel fun ch _ => depth_le pool fuel ch.1 ch.2
+
+/-! ### designed pools: the one-lap rings are the simple rings -/
+
+theorem lastRev_suffix {s a : Fragment} {S L : List Fragment} (h : (s :: S) <:+ (a :: L)) : lastRev s S = lastRev a L := by
+  obtain ⟨t, ht⟩ := h
+  cases t with
+  | nil => simp only [List.nil_append, List.cons.injEq] at ht; rw [ht.1, ht.2]
+  | cons b t =>
+    simp only [List.cons_append, List.cons.injEq] at ht
+    rw [← ht.1, ← ht.2, lastRev_append_cons]
+
+theorem linked_suffix {S L : List Fragment} (hl : linked L = true) (h : S <:+ L) : linked S = true :=
+  (linked_iff S).2 (((linked_iff L).1 hl).suffix h)
+
+/-- if two fragments of a linked list, whose forward overhang determines the reverse overhang, have the same
+forward overhang, then (pushing the pair along the list) some fragment after the first of them has the
+overhang that follows the last fragment -/
+theorem shift_pair (c : Str) : ∀ (Y : List Fragment) (y x : Fragment) (X' : List Fragment),
+    linked (x :: X') = true → lastRev x X' = c → (y :: Y) <:+ X' →
+    (∀ a ∈ x :: X', ∀ b ∈ x :: X', a.fwd = b.fwd → a.rev = b.rev) → x.fwd = y.fwd → ∃ z ∈ X', z.fwd = c := by
+  intro Y
+  induction Y with
+  | nil =>
+    intro y x X' hl hlast hsuf hfun hxy
+    cases X' with
+    | nil => exact absurd (List.IsSuffix.length_le hsuf) (by simp)
+    | cons x' X'' =>
+      rw [linked_cons_cons, Bool.and_eq_true, beq_iff_eq] at hl
+      have hy : y ∈ x' :: X'' := hsuf.subset (List.mem_cons_self ..)
+      have hrev : x.rev = y.rev := hfun x (List.mem_cons_self ..) y (List.mem_cons_of_mem _ hy) hxy
+      have : lastRev y [] = lastRev x' X'' := lastRev_suffix hsuf
+      refine ⟨x', List.mem_cons_self .., ?_⟩
+      rw [← hl.1, hrev, ← hlast]; exact this
+  | cons y' Y'' ih =>
+    intro y x X' hl hlast hsuf hfun hxy
+    cases X' with
+    | nil => exact absurd (List.IsSuffix.length_le hsuf) (by simp)
+    | cons x' X'' =>
+      rw [linked_cons_cons, Bool.and_eq_true, beq_iff_eq] at hl
+      have hy : y ∈ x' :: X'' := hsuf.subset (List.mem_cons_self ..)
+      have hrev : x.rev = y.rev := hfun x (List.mem_cons_self ..) y (List.mem_cons_of_mem _ hy) hxy
+      have hly := linked_suffix hl.2 hsuf
+      rw [linked_cons_cons, Bool.and_eq_true, beq_iff_eq] at hly
+      have hsuf' : (y' :: Y'') <:+ X'' := by
+        rcases List.suffix_cons_iff.1 hsuf with h | h
+        · simp only [List.cons.injEq] at h
+          rw [← h.2]
+        · exact (List.suffix_cons y (y' :: Y'')).trans h
+      obtain ⟨z, hz, hzc⟩ := ih y' x' X'' hl.2 hlast hsuf'
+        (fun a ha b hb => hfun a (List.mem_cons_of_mem _ ha) b (List.mem_cons_of_mem _ hb))
+        (by rw [← hl.1, hrev, hly.1])
+      exact ⟨z, List.mem_cons_of_mem _ hz, hzc⟩
+
+theorem nodup_fwd_of_func (c : Str) : ∀ (X' : List Fragment) (x : Fragment),
+    linked (x :: X') = true → lastRev x X' = c →
+    (∀ a ∈ x :: X', ∀ b ∈ x :: X', a.fwd = b.fwd → a.rev = b.rev) → (∀ z ∈ X', z.fwd ≠ c) →
+    ((x :: X').map (·.fwd)).Nodup := by
+  intro X'
+  induction X' with
+  | nil => intro x _ _ _ _; simp
+  | cons x' X'' ih =>
+    intro x hl hlast hfun hne
+    rw [List.map_cons, List.nodup_cons]
+    constructor
+    · intro hmem
+      obtain ⟨y, hy, hyx⟩ := List.mem_map.1 hmem
+      obtain ⟨A, Y, hAY⟩ := List.append_of_mem hy
+      have hsuf : (y :: Y) <:+ (x' :: X'') := ⟨A, hAY.symm⟩
+      obtain ⟨z, hz, hzc⟩ := shift_pair c Y y x (x' :: X'') hl hlast hsuf hfun hyx.symm
+      exact hne z hz hzc
+    · rw [linked_cons_cons, Bool.and_eq_true] at hl
+      exact ih x' hl.2 hlast (fun a ha b hb => hfun a (List.mem_cons_of_mem _ ha) b (List.mem_cons_of_mem _ hb))
+        (fun z hz => hne z (List.mem_cons_of_mem _ hz))
+
+theorem mem_orientations {pool : List Fragment} {o : Oriented} : o ∈ orientations pool ↔ o.frag ∈ pool := by
+  obtain ⟨f, b⟩ := o
+  simp only [orientations, List.mem_flatMap, List.mem_cons, Oriented.mk.injEq, List.not_mem_nil, or_false]
+  constructor
+  · rintro ⟨g, hg, (⟨rfl, _⟩ | ⟨rfl, _⟩)⟩ <;> exact hg
+  · intro h
+    refine ⟨f, h, ?_⟩
+    cases b <;> simp
+
+/-- in a closed linked list every fragment's reverse overhang is some fragment's forward overhang -/
+theorem succ_exists (g : Fragment) (gs : List Fragment) (hl : linked (g :: gs) = true) (hc : lastRev g gs = g.fwd) :
+    ∀ a ∈ g :: gs, ∃ b ∈ g :: gs, b.fwd = a.rev := by
+  intro a ha
+  have h1 : a.rev ∈ (g :: gs).map (·.rev) := List.mem_map.2 ⟨a, ha, rfl⟩
+  rw [map_rev_eq g gs hl, hc, List.mem_append, List.mem_singleton] at h1
+  rcases h1 with h1 | h1
+  · obtain ⟨b, hb, hbe⟩ := List.mem_map.1 h1
+    exact ⟨b, List.mem_cons_of_mem _ hb, hbe⟩
+  · exact ⟨g, List.mem_cons_self .., h1.symm⟩
+
+/-- On a designed pool a ring of the class the code closes (`OneLap`) is simple. -/
+theorem designed_oneLap_simple {pool : List Fragment} (hd : designed pool = true) {f : Fragment} {suf : List Oriented}
+    (hr : Ring pool (⟨f, false⟩ :: suf)) (hone : OneLap f suf) : Simple (⟨f, false⟩ :: suf) := by
+  simp only [designed, Bool.and_eq_true, List.all_eq_true] at hd
+  obtain ⟨⟨_, hnp⟩, hfunc⟩ := hd
+  have hmemO : ∀ o ∈ (⟨f, false⟩ :: suf : List Oriented), o ∈ orientations pool := fun o ho => mem_orientations.2 (hr.mem o ho)
+  have hl : linked (f :: suf.map (·.get)) = true := by simpa [Oriented.get] using hr.linked
+  have hc : lastRev f (suf.map (·.get)) = f.fwd := by
+    have := hr.closes
+    simp only [List.map_cons] at this
+    rw [closes_cons] at this
+    simpa [Oriented.get] using this
+  have hgets : ∀ a ∈ f :: suf.map (·.get), ∃ o ∈ (⟨f, false⟩ :: suf : List Oriented), o.get = a := by
+    intro a ha
+    rcases List.mem_cons.1 ha with rfl | ha
+    · exact ⟨⟨a, false⟩, List.mem_cons_self .., rfl⟩
+    · obtain ⟨o, ho, rfl⟩ := List.mem_map.1 ha
+      exact ⟨o, List.mem_cons_of_mem _ ho, rfl⟩
+  have hlive : ∀ o ∈ (⟨f, false⟩ :: suf : List Oriented), live pool o = true := by
+    intro o ho
+    have hoa : o.get ∈ f :: suf.map (·.get) := by
+      rcases List.mem_cons.1 ho with rfl | ho
+      · exact List.mem_cons_self ..
+      · exact List.mem_cons_of_mem _ (List.mem_map.2 ⟨o, ho, rfl⟩)
+    obtain ⟨b, hb, hbe⟩ := succ_exists f _ hl hc o.get hoa
+    obtain ⟨o', ho', rfl⟩ := hgets b hb
+    simp only [live, List.any_eq_true, beq_iff_eq]
+    exact ⟨o', hmemO o' ho', hbe⟩
+  have hfun : ∀ a ∈ f :: suf.map (·.get), ∀ b ∈ f :: suf.map (·.get), a.fwd = b.fwd → a.rev = b.rev := by
+    intro a ha b hb hab
+    obtain ⟨oa, hoa, rfl⟩ := hgets a ha
+    obtain ⟨ob, hob, rfl⟩ := hgets b hb
+    have := hfunc oa (hmemO oa hoa) ob (hmemO ob hob)
+    simp only [hlive oa hoa, hlive ob hob, hab, beq_self_eq_true, Bool.and_self, Bool.not_true, Bool.false_or, beq_iff_eq] at this
+    exact this
+  have hne : ∀ z ∈ suf.map (·.get), z.fwd ≠ f.fwd := by
+    intro z hz
+    obtain ⟨o, ho, rfl⟩ := List.mem_map.1 hz
+    exact hone.1 o ho
+  have hnd := nodup_fwd_of_func f.fwd (suf.map (·.get)) f hl hc hfun hne
+  refine ⟨?_, fun o ho => ?_⟩
+  · have : (⟨f, false⟩ :: suf : List Oriented).map (·.junction) = (f :: suf.map (·.get)).map (·.fwd) := by
+      simp [Oriented.junction, Oriented.get, List.map_map, Function.comp_def]
+    rw [this]; exact hnd
+  · have := hnp o (hmemO o ho)
+    simpa using this
 
 end PolyVerif.Ligate
